@@ -47,7 +47,7 @@ def c07(c):
            dict(src='c07_vegas_grid.cpp', build='fuzz', shards={'quick': 1, 'thorough': 4}, fuzz_runs={'quick': 3000, 'thorough': 200000})])
     c.require('fuzz_inputs', 100)
     for k in ('refinements', 'equi_boundaries_checked', 'all_zero_refinements', 'calls_checked', 'zero_iterations', 'scripted_runs',
-              'scripted_u_zero', 'scripted_u_max', 'icdf_extreme_calls', 'adaptive_runs'):
+              'scripted_u_zero', 'scripted_u_max', 'icdf_extreme_calls', 'adaptive_runs', 'icdf_calls_in_more_than_8_dimensions'):
         c.require(k)
 
 
@@ -65,7 +65,7 @@ def c08(c):
            dict(src='c08_weights.cpp', build='clang', shards={'quick': 1, 'thorough': 5}, tiers=('thorough',), extra_inc=SHIM, libs=['-pthread']),
            dict(src='c08_weights.cpp', build='fuzz', shards={'quick': 1, 'thorough': 4}, fuzz_runs={'quick': 3000, 'thorough': 200000}, extra_inc=SHIM, libs=['-pthread'])])
     c.require('fuzz_inputs', 100)
-    for k in ('refinements', 'vectors_checked', 'all_zero_data', 'channels_ratio_judged', 'adaptive_runs', 'run_vectors_checked', 'zero_iterations', 'mpi_runs', 'used_weights_judged_against_previous_result'):
+    for k in ('refinements', 'vectors_checked', 'all_zero_data', 'channels_ratio_judged', 'adaptive_runs', 'run_vectors_checked', 'zero_iterations', 'mpi_runs', 'used_weights_judged_against_previous_result', 'runs_started_from_reloaded_initial_checkpoint'):
         c.require(k)
 
 
